@@ -117,15 +117,24 @@ def expo_unify(terms):
     atoms = {}            # id -> (atom term, x, c)
     seen = set()
 
+    def _sym(t):
+        return z3.is_const(t) and t.decl().kind() == z3.Z3_OP_UNINTERPRETED
+
     def lin(arg):
-        """arg == c*LOG(x) ?  -> (x, c) or None"""
+        """arg == c*LOG(x) -> (x, c, True);  arg == c*s for a plain symbol s -> (s, c, False);  else None"""
         a = z3.simplify(arg)
-        if a.decl().eq(S.LOG) and z3.is_const(a.arg(0)):
-            return a.arg(0), Fraction(1)
+        if a.decl().eq(S.LOG) and _sym(a.arg(0)):
+            return a.arg(0), Fraction(1), True
+        if _sym(a):
+            return a, Fraction(1), False
         if z3.is_mul(a) and len(a.children()) == 2:
             c, b = a.children()
-            if z3.is_rational_value(c) and b.decl().eq(S.LOG) and z3.is_const(b.arg(0)):
-                return b.arg(0), Fraction(c.numerator_as_long(), c.denominator_as_long())
+            if z3.is_rational_value(c):
+                cf = Fraction(c.numerator_as_long(), c.denominator_as_long())
+                if b.decl().eq(S.LOG) and _sym(b.arg(0)):
+                    return b.arg(0), cf, True
+                if _sym(b):
+                    return b, cf, False
         return None
 
     def walk(t):
@@ -136,7 +145,7 @@ def expo_unify(terms):
             if t.decl().eq(S.EXP):
                 r = lin(t.arg(0))
                 if r is not None:
-                    atoms[t.get_id()] = (t, r[0], r[1])
+                    atoms[t.get_id()] = (t, r[0], r[1], r[2])
             for ch in t.children():
                 walk(ch)
     for t in terms:
@@ -144,21 +153,23 @@ def expo_unify(terms):
     if not atoms:
         return terms, []
     byx = {}
-    for _id, (atom, x, c) in atoms.items():
-        byx.setdefault(str(x), (x, []))[1].append((atom, c))
+    for _id, (atom, x, c, is_log) in atoms.items():
+        byx.setdefault((str(x), is_log), (x, is_log, []))[2].append((atom, c))
     subs1, subs2, dom = [], [], []
-    for name, (x, lst) in byx.items():
+    for (name, is_log), (x, _il, lst) in byx.items():
         q = 1
         for _a, c in lst:
             q = q * c.denominator // math.gcd(q, c.denominator)
-        W = z3.Real(f"W_{name}")
+        # EXP(c*LOG x): W = x^(1/q) and x = W^q;  EXP(c*s): W = EXP(s/q) (the bare s stays, it is only related to W through EXP)
+        W = z3.Real(f"W_{name}" if is_log else f"WE_{name}")
         dom.append(W > 0)
         for k, (atom, c) in enumerate(lst):
-            E = z3.Real(f"E_{name}_{k}")
+            E = z3.Real(f"E_{name}_{int(is_log)}_{k}")
             n = int(c * q)
             subs1.append((atom, E))
             subs2.append((E, W ** n if n >= 0 else 1 / (W ** (-n))))
-        subs2.append((x, W ** q))
+        if is_log:
+            subs2.append((x, W ** q))
     out = []
     for t in terms:
         t1 = z3.substitute(t, *subs1)
